@@ -55,7 +55,7 @@ ASSUMPTIONS = [
     "(n, m) the inject cases use; if a private name or the module-level name `geometric` is absent the sub-check counts itself under unobserved:*",
 ]
 TECHNIQUE = "runtime monitoring: post-condition monitors against closed forms / brute force, injected RNG outcomes, exhaustive decoding"
-CASE_TIMEOUT = 60
+CASE_TIMEOUT = 20
 
 NSEEDS = 5
 BIG = 10**12
@@ -122,6 +122,8 @@ def call(mon, fname, trig, args, kwargs, rejects=(), reject_ok=True, keyfn=None)
             mon.fail(f"{fname}|{trig}|rejects-admissible-parameters", f"{desc} raised {type(exc).__name__}: {exc} for admissible parameters", desc)
             raise Fired()
         except Exception as exc:
+            if type(exc).__name__ == "Watchdog":  # the framework's per-case alarm: never a verdict about xgi
+                raise
             mon.ev()
             mon.fail(f"{keyfn}|{trig}|raises-{type(exc).__name__}", f"{desc} raised {type(exc).__name__}: {exc}", desc)
             raise Fired()
@@ -294,7 +296,7 @@ def g_uniform_erdos_renyi_hypergraph(mon, rng):
     q = er_q(n, m, p, p_type, multi)
     if p_type == "degree" and (abs(q - 1) < 1e-9 and q != 1):
         return  # rounding decides between "complete" and "rejected": not driven
-    trig = f"p_type={p_type},multiedges={multi}," + ("p=1" if q == 1 else "p=0" if q == 0 else "p>1" if q > 1 else "0<p<1")
+    trig = ("multiedges," if multi else "") + ("p=1" if q == 1 else "p=0" if q == 0 else "p>1" if q > 1 else "0<p<1")
     kw = {"p_type": p_type, "multiedges": multi}
     for seed in seeds_for(rng):
         try:
@@ -1165,6 +1167,9 @@ def extra_coverage(mon):
 
 
 def run_case(mon, kind, idx, rng):
+    if mon.watchdogs >= 3:  # a generator that does not terminate: the verdict is inconclusive already, do not spend 20 s on every further case
+        mon.note("skipped:after-3-watchdogs")
+        return
     st, npst = random.getstate(), np.random.get_state()
     try:
         if kind == "decode":
